@@ -96,6 +96,13 @@ def _build_tables():
             add(l, tuple(order), "R", tgt, None)
         for l in ev["N"]:
             add(l, (0, 0, 0), "N", None, None)
+        for l, expr, *span in ev.get("Sx", []):
+            sig = (path, l, "S", expr)
+            if sig not in seen:
+                seen.add(sig)
+                xt = compile(expr, "<site-target>", "eval")
+                EVLINES.setdefault((path, l), []).append(((0, 0, 0), "S", xt, None, key))
+                EVOPS.setdefault((path, r["first_line"]), []).append(("S", tuple(span), xt, None, key))
         for l in ev.get("Sself", []):
             # the function reads its OWN name there: an event only when `self` is one of the modelled cells (nested wrapper)
             sig = (path, l, "s", "self")
@@ -568,7 +575,15 @@ def _build_twin(name):
                  extra={"vk": {f: kind for f in "xyz"}, "roster": [(0, "x"), (0, "y"), (1, "z")]})
 
 
-WKIND = {"anyof": "anyOf", "oneof": "oneOf", "allof": "allOf", "notfield": "notField"}
+def _stores_through(cls_name):
+    """does <cls_name>.__set__ hand one of its options the REAL instance (`option.__set__(instance, value)` through an alias /
+    an index: the translator's Sx events)?  Then the model's store-through program variant applies."""
+    return any(r["func"] == f"{cls_name}.__set__" and r.get("events", {}).get("Sx") for r in ROWS)
+
+
+WKIND = {"anyof": "anyOf", "notfield": "notField",
+         "oneof": "oneOfThrough" if _stores_through("OneOf") else "oneOf",
+         "allof": "allOfThrough" if _stores_through("AllOf") else "allOf"}
 _SHAPES = {}
 
 
@@ -594,7 +609,9 @@ A_SHAPES = ["array_int", "deque_int", "tuple_homog", "array_two_fields", "set_in
 A2_SHAPES = ["anyof", "oneof", "allof", "notfield", "shared_anyof", "shared_oneof", "shared_allof", "shared_notfield",
              "immset", "shared_immset"]
 # a multi-field wrapper as the single items object of a homogeneous Array (its own _name is the outer loop's scratch)
-A3_SHAPES = ["array_anyof", "array_oneof", "array_allof", "array_notfield"]
+# (array_allof stays oracle-only: since fix 95931f6 AllOf reads its own name in two separate statements - load, then
+# store - which the model's single `move` step cannot separate when that name is itself a scratch cell)
+A3_SHAPES = ["array_anyof", "array_oneof", "array_notfield"]
 E_SHAPES = ["shared_anyof", "shared_allof", "shared_oneof", "shared_notfield", "array_anyof", "array_oneof",
             "array_allof", "array_notfield", "array_set", "array_immset", "array_map", "array_array", "array_pos",
             "array_dequepos", "array_tuple", "immset", "shared_immset", "anyof", "oneof", "allof", "notfield",
@@ -1868,7 +1885,8 @@ def gen_cases(rng, tier, scale=1.0):
     # the same correspondence at BYTECODE granularity: yield points = every attribute / item / call instruction of the site
     # functions, events logged at the very CALL / STORE instruction that performs the shared access (so the two loads of
     # Map's read-back statement, or a load and a store inside one statement, can be separated)
-    for sname, v0, v1 in (rng.sample(CANONICAL, 4) if quick else CANONICAL):
+    flat_canon = [c for c in CANONICAL if c[0] not in A3_SHAPES]   # own-name reads are line-level events only
+    for sname, v0, v1 in (rng.sample(flat_canon, 4) if quick else flat_canon):
         fl = pick_fields(rng, sname, 2)
         cases.append({"stream": "A", "shape": sname, "sseed": 1, "max_pre": 1 if quick else 2, "cap": 120 if quick else 300,
                       "yield": "siteops",
